@@ -7,6 +7,7 @@ use super::literals_section_decoder::decode_literals;
 use super::sequence_section_decoder::decode_sequences;
 use crate::common::MAX_BLOCK_SIZE;
 use crate::decoding::errors::DecodeSequenceError;
+use crate::decoding::errors::ExecuteSequencesError;
 use crate::decoding::errors::{
     BlockHeaderReadError, BlockSizeError, BlockTypeError, DecodeBlockContentError,
     DecompressBlockError,
@@ -116,6 +117,15 @@ impl BlockDecoder {
             section.regenerated_size,
             section.compressed_size
         );
+
+        if section.regenerated_size > MAX_BLOCK_SIZE {
+            return Err(DecompressBlockError::ExecuteSequencesError(
+                ExecuteSequencesError::BlockTooBig {
+                    size: u64::from(section.regenerated_size),
+                    max: MAX_BLOCK_SIZE,
+                },
+            ));
+        }
 
         let upper_limit_for_literals = match section.compressed_size {
             Some(x) => x as usize,
